@@ -239,3 +239,74 @@ pub fn reorder_trace(nz_mask: &[bool], merge_method: &str) -> (TreeView, TreeVie
     let after = snap(&sntree, &ordering);
     (before, after)
 }
+
+/// Trace of one merge run: the tree before merging, every decision `(cand.0, cand.1, do_merge)`
+/// in the order taken, the supernode sets when the loop ends (before `post_process_merge`), and
+/// the tree after `post_process_merge`.  The loop below is the default `merge_cliques` of the
+/// `MergeStrategy` trait written out so that the decisions can be recorded.
+pub struct MergeTrace {
+    pub before: TreeView,
+    pub decisions: Vec<(usize, usize, bool)>,
+    pub loop_end_snode: Vec<Vec<usize>>,
+    pub after: TreeView,
+}
+fn snap_tree(t: &SuperNodeTree, ordering: &[usize]) -> TreeView {
+    TreeView {
+        orig_index: 0,
+        snode: t.snode.iter().map(sorted).collect(),
+        separators: t.separators.iter().map(sorted).collect(),
+        parent: t.snode_parent.clone(),
+        snode_post: t.snode_post.clone(),
+        vertex_post: t.post.clone(),
+        nblk: t.nblk.clone(),
+        n_cliques: t.n_cliques,
+        ordering: ordering.to_vec(),
+    }
+}
+fn traced_merge<S: MergeStrategy>(
+    s: &mut S,
+    t: &mut SuperNodeTree,
+    dec: &mut Vec<(usize, usize, bool)>,
+) -> Vec<Vec<usize>> {
+    s.initialise(t);
+    while !s.is_done() {
+        let Some(cand) = s.traverse(t) else {
+            break;
+        };
+        let do_merge = s.evaluate(t, cand);
+        if do_merge {
+            s.merge_two_cliques(t, cand);
+        }
+        s.update_strategy(t, cand, do_merge);
+        dec.push((cand.0, cand.1, do_merge));
+        if t.n_cliques == 1 {
+            break;
+        }
+    }
+    let mid = t.snode.iter().map(sorted).collect();
+    s.post_process_merge(t);
+    mid
+}
+pub fn merge_trace(nz_mask: &[bool], merge_method: &str) -> MergeTrace {
+    let (L, ordering) = ChordalInfo::<f64>::verif_find_graph(nz_mask);
+    let mut t = SuperNodeTree::new(&L);
+    let before = snap_tree(&t, &ordering);
+    let mut decisions = vec![];
+    let mut loop_end_snode = before.snode.clone();
+    if t.n_cliques > 1 {
+        loop_end_snode = match merge_method {
+            "none" => traced_merge(&mut NoMergeStrategy::new(), &mut t, &mut decisions),
+            "parent_child" => traced_merge(&mut ParentChildMergeStrategy::new(), &mut t, &mut decisions),
+            _ => traced_merge(&mut CliqueGraphMergeStrategy::new(), &mut t, &mut decisions),
+        };
+    }
+    let after = snap_tree(&t, &ordering);
+    MergeTrace { before, decisions, loop_end_snode, after }
+}
+/// the factor pattern L found for a mask, by columns (rows strictly below the diagonal are all
+/// that QDLDL's logical factorisation stores), and the AMD ordering
+pub fn factor_columns(nz_mask: &[bool]) -> (Vec<Vec<usize>>, Vec<usize>) {
+    let (L, ordering) = ChordalInfo::<f64>::verif_find_graph(nz_mask);
+    let cols = (0..L.n).map(|j| L.rowval[L.colptr[j]..L.colptr[j + 1]].to_vec()).collect();
+    (cols, ordering)
+}
